@@ -94,6 +94,21 @@ def run(ctx, replay_case):
             ctx.violations.append({"kind": "concrete", "signature": "truncated",
                                    "what": f"input cut at {k}: expected {len(expected)} events then '{exp_r}', observed {len(evs)} events then '{b[-1]}'",
                                    "replay": {**c.replay("S"), "whole": c.meta["base"].data.hex()}})
+    # the same decodes below a caller-supplied root path (`root_path=`, as the `Canonical` facade passes it): length mismatches,
+    # the clean end of a stream at a message boundary and the command code carried by the errors must not depend on where the
+    # caller roots the paths.  The implementation is compared with itself (events and outcome, root prefix stripped).
+    rooted = [c for c in derived if c.kind != "truncated" or c.meta["cut"] % 3 == 0]
+    rooted = (wf[:: max(1, len(wf) // 400)] + rooted)[: (1500 if ctx.tier == "quick" else 20000)]
+    rbase = core.run_impl([c.op("S") for c in rooted])
+    rroot = core.run_impl([("DECROOT", "S", c.tname, c.cc, c.enc, c.data, ".ROOTQ") for c in rooted])
+    for c, b0, b1 in zip(rooted, rbase, rroot):
+        if b0 != b1:
+            bad["rooted"] += 1
+            if bad["rooted"] <= 3:
+                k, e, g = __import__("suites").first_diff(b0, b1)
+                ctx.violations.append({"kind": "concrete", "signature": f"root-path:{c.tname}:{b1[-1].split(' ')[1] if b1 else '-'}",
+                                       "what": f"decoding a {c.tname} ({c.kind}) below a caller-supplied root path differs from decoding it at the default root (line {k})",
+                                       "replay": {**c.replay("S"), "root_path": ".ROOTQ", "expected": e, "observed": g}})
     ctx.stats.update({
         "evaluations": len(derived) + len(wf),
         "distinct_nontrivial": len({(c.tname, c.cc, c.data) for c in derived}),
@@ -102,8 +117,8 @@ def run(ctx, replay_case):
                 "type; expected events = those of the whole input complete at the cut, expected error = depleted with the "
                 "command code decoded so far / superfluous with exactly the suffix; streams end cleanly only at a boundary",
         "samples": [c.replay("S") for c in derived[:: max(1, len(derived) // 5)]][:5],
-        "correspondence": {"ops": len(derived)},
-        "distribution": {"kinds": ds.kinds_distribution(derived), "failures": dict(bad),
+        "correspondence": {"ops": len(derived), "rooted_decodes_compared": len(rooted)},
+        "distribution": {"kinds": ds.kinds_distribution(derived), "failures": dict(bad), "rooted_kinds": ds.kinds_distribution(rooted),
                          "outcomes": dict(collections.Counter(ds.outcome(b) for b in impl))},
     })
 
